@@ -56,6 +56,19 @@ type c20Msg struct {
 	Tail  *c20Gated  `ttlv:"0x540043,omitempty"`
 }
 
+// c20GatedOld / c20GatedNew: what a c20Gated looks like on the wire under version 1.0 /
+// 1.4 (same tags, only the fields of that version). Decoding them into a c20Gated succeeds
+// only if the decoder holds such a version: on a new decoder (no version) a field is missing.
+type c20GatedOld struct {
+	B string `ttlv:"0x540021"`
+	F int32  `ttlv:"0x540025"`
+}
+type c20GatedNew struct {
+	A int32     `ttlv:"0x540020"`
+	D *c20Leafs `ttlv:"0x540023"`
+	F int32     `ttlv:"0x540025"`
+}
+
 // c20Late sets the version after its gated fields have been written.
 type c20Late struct {
 	G c20Gated `ttlv:"0x540050"`
